@@ -1285,6 +1285,9 @@ class Interp:
         m = self.ctx.models.comp_hook(self, e, it, fr, kind)
         if m is not NotImplemented:
             return m
+        if (kind == "list" and tag(it) == "range" and it[3] == 1 and any(is_z3(x) for x in it[1:3]) and not g.ifs
+                and isinstance(g.target, ast.Name)):
+            return self.comp_symbolic_range(e, g, it, fr)
         items = self.iter_concrete(it, e)
         out = []
         outd = {}
@@ -1311,6 +1314,34 @@ class Interp:
         if kind == "dict":
             return self.run.alloc(HDict(outd))
         return self.run.alloc(HList(out))
+
+    def comp_symbolic_range(self, e, g, it, fr):
+        """[f(i) for i in range(a, b)] with symbolic bounds: the sequence whose j-th element is f(a + j).  The element
+        expression is evaluated once for an arbitrary index in range (its safety obligations then hold for every index);
+        it must not split the path (no index-dependent branching) and must yield a number"""
+        run = self.run
+        a, b = b2i(z(it[1])), b2i(z(it[2]))
+        j = z3.Int("j!comp%d" % run.fresh_n)
+        run.fresh_n += 1
+        n = z3.simplify(z3.If(b - a >= 0, b - a, z3.IntVal(0)))
+        sub = Frame({}, fr.fi, fr.cls, parent=fr, module=fr.module)
+        sub.spec = fr.spec
+        sub.env[g.target.id] = a + j
+        n_pc, n_dec = len(run.pc), run.pos
+        run.pc.append(z3.And(j >= 0, j < n))
+        try:
+            v = run.num(self.ev(e.elt, sub), "comprehension element")
+        finally:
+            # the index assumption is local to the element: obligations created inside carry it, later ones do not
+            del run.pc[n_pc]
+        if run.pos != n_dec:
+            raise Unsupported("comprehension over a symbolic range whose element splits the path", e)
+        if not is_z3(v):
+            v = z3.IntVal(v) if isinstance(v, int) else z3.RealVal(v)
+        elem = "Int" if v.sort() == INT else ("Real" if v.sort() == REAL else None)
+        if elem is None:
+            raise Unsupported("comprehension over a symbolic range with non-numeric elements", e)
+        return run.alloc(HSeq(z3.Lambda([j], v), z3.IntVal(0), n, elem))
 
     def iter_concrete(self, it, node=None):
         run = self.run
